@@ -67,7 +67,7 @@ SPEC = dict(
                  ('keys.py generator decision lines->Generated/MnemonicNew.lean', arith_adnl.regenerator('MnemonicNew'))],
     lean_targets=['TonVerif.Proofs.SrcAdnl', 'TonVerif.Proofs.SrcAdnlLoop'],
     design_ref='DESIGN.md §6 C20',
-    rule='channel case = (seed a, seed b, id variant: natural/swapped/equal/prefix/empty, plaintext length 0..4096 incl. block boundaries), both directions; '
+    rule='plaintexts that are / begin with / contain every identifier the sending channel derives (aes key ids, key ids, public keys, keys, bytes attributes of the library objects, source bytes literals) on natural / swapped / equal / self channels, both directions; channel case = (seed a, seed b, id variant: natural/swapped/equal/prefix/empty, plaintext length 0..4096 incl. block boundaries), both directions; '
          'plaintext lengths around every int literal of the current ciphers.py / signature.py / keys.py (and the powers of two next to it) up to 4 MiB; self channel a=b; cipher-guard case = (key length, data length) around 16/20/32; sign case = (seed, message, one alteration of message/key/signature); '
          'mnemonic case = one mnemonic_new() output (validated, derived twice, compared with hashlib/libsodium) or one recorded os.urandom stream; '
          'distinct = distinct inputs; non-trivial = plaintext/message non-empty or structural case',
